@@ -1,0 +1,49 @@
+//go:build verif
+
+package reload
+
+import (
+	"context"
+	"time"
+
+	"github.com/fsnotify/fsnotify"
+)
+
+// Verification hooks (build tag "verif" only). Thin exported wrappers around the
+// unexported watch entry point; they add no behaviour.
+
+// VerifEventWatcher is the watcher abstraction the watch loop consumes.
+type VerifEventWatcher interface {
+	Events() <-chan fsnotify.Event
+	Errors() <-chan error
+	Close() error
+}
+
+// VerifDebounce and VerifReconcileInterval expose the loop's default intervals.
+const (
+	VerifDebounce          = debounceDuration
+	VerifReconcileInterval = reconciliationInterval
+)
+
+// VerifWatchWithOptions runs watchWithOptions with an injected watcher factory,
+// reconcile interval (<= 0 selects the default) and attach notification.
+func VerifWatchWithOptions(
+	ctx context.Context,
+	path string,
+	cb func() error,
+	reconcileInterval time.Duration,
+	newWatcher func(dir string) (VerifEventWatcher, error),
+	attached func(),
+) error {
+	opts := watchOptions{reconcileInterval: reconcileInterval, attached: attached}
+	if newWatcher != nil {
+		opts.newWatcher = func(dir string) (eventWatcher, error) {
+			w, err := newWatcher(dir)
+			if err != nil {
+				return nil, err
+			}
+			return w, nil
+		}
+	}
+	return watchWithOptions(ctx, path, cb, opts)
+}
